@@ -63,9 +63,9 @@ ICMP::ICMP(const uint8_t* buffer, uint32_t total_sz)
     InputMemoryStream stream(buffer, total_sz);
     stream.read(header_);
     if (type() == TIMESTAMP_REQUEST || type() == TIMESTAMP_REPLY) {
-        original_timestamp(stream.read<uint32_t>());
-        receive_timestamp(stream.read<uint32_t>());
-        transmit_timestamp(stream.read<uint32_t>());
+        original_timestamp(stream.read_be<uint32_t>());
+        receive_timestamp(stream.read_be<uint32_t>());
+        transmit_timestamp(stream.read_be<uint32_t>());
     }
     else if (type() == ADDRESS_MASK_REQUEST || type() == ADDRESS_MASK_REPLY) {
         address_mask(address_type(stream.read<uint32_t>()));
@@ -244,9 +244,9 @@ void ICMP::write_serialization(uint8_t* buffer, uint32_t total_sz) {
     stream.write(header_);
 
     if (type() == TIMESTAMP_REQUEST || type() == TIMESTAMP_REPLY) {
-        stream.write(original_timestamp());
-        stream.write(receive_timestamp());
-        stream.write(transmit_timestamp());
+        stream.write_be(original_timestamp());
+        stream.write_be(receive_timestamp());
+        stream.write_be(transmit_timestamp());
     }
     else if (type() == ADDRESS_MASK_REQUEST || type() == ADDRESS_MASK_REPLY) {
         stream.write(address_mask());
